@@ -297,13 +297,26 @@ class Locks:
             return self._must
         ALL = frozenset(self.lock_ids)
         H: Dict[str, FrozenSet[LockId]] = {}
+
+        def is_api(f: FuncInfo) -> bool:
+            """callable from outside the package with nothing held: a public function / method (or a protocol dunder) that is not
+            nested in another function and does not belong to a private class - whatever its callers INSIDE the package hold"""
+            if f.parent is not None:
+                return False
+            if f.cls is not None and f.cls.name.startswith("_"):
+                return False
+            nm = f.name
+            return not nm.startswith("_") or (nm.startswith("__") and nm.endswith("__") and nm not in ("__init__", "__post_init__"))
+        api = {fq for fq, f in self.cg.funcs.items() if is_api(f)}
         for fq, f in self.cg.funcs.items():
             inc = [e for e in self.cg.inc.get(fq, []) if e.kind in self.SAME_THREAD and not (exclude_ctor_callers and e.caller.name in ("__init__", "__post_init__"))]
-            H[fq] = ALL if inc else frozenset()
+            H[fq] = ALL if inc and fq not in api else frozenset()
         changed = True
         while changed:
             changed = False
             for fq, f in self.cg.funcs.items():
+                if fq in api:
+                    continue
                 inc = [e for e in self.cg.inc.get(fq, []) if e.kind in self.SAME_THREAD and not (exclude_ctor_callers and e.caller.name in ("__init__", "__post_init__"))]
                 if not inc:
                     continue
